@@ -232,6 +232,11 @@ def main(check, argv=None):
         'harness_errors': len(batch['harness_errors']),
         'replays': [os.path.relpath(p, core.VERIF_DIR) for p in reported],
     }
+    if batch.get('variants_unavailable'):
+        cov['variants_unavailable'] = batch['variants_unavailable']
+        cov['runs_skipped'] = batch['runs_skipped']
+        print("NOTE: world variant(s) unavailable in this tree, their runs "
+              "were skipped:", batch['variants_unavailable'])
     if hasattr(check, 'extra_coverage'):
         cov.update(check.extra_coverage(results, reach))
     if stats.c.get('sim_days'):
